@@ -55,6 +55,31 @@ theorem gen_calculate_index_tests :
        "had_equal", "param_name.string_name == key_start",
        "param_name.string_name.startswith(key_start)"] := rfl
 
+/-- the guards of `process_params` / `_remove_given_params` and the kinds `maybe_positional_argument` /
+`maybe_keyword_argument` accept, as `ppScan`, `ppScan2`, `processParamsKw`, `removeGiven`,
+`maybePositional`, `maybeKeyword` transcribe them -/
+theorem gen_forwarding_tests :
+    JediModel.Gen.C11.removeGivenTests =
+      ["key is None", "count and p.maybe_positional_argument()",
+       "p.string_name in used_keys and p.maybe_keyword_argument()"] ∧
+    JediModel.Gen.C11.maybePositionalKinds =
+      ["Parameter.POSITIONAL_ONLY", "Parameter.POSITIONAL_OR_KEYWORD", "Parameter.VAR_POSITIONAL"] ∧
+    JediModel.Gen.C11.maybeKeywordKinds =
+      ["Parameter.KEYWORD_ONLY", "Parameter.POSITIONAL_OR_KEYWORD", "Parameter.VAR_KEYWORD"] ∧
+    JediModel.Gen.C11.processParamsTests =
+      ["param_names", "not found_arg_signature and original_arg_name is not None",
+       "not found_kwarg_signature and original_kwarg_name is not None",
+       "is_big_annoying_library(param_names[0].parent_context)", "kind == Parameter.VAR_POSITIONAL",
+       "func_and_argument in kwarg_callables", "star_count == 1 and p.get_kind() != Parameter.VAR_POSITIONAL",
+       "arg_names", "p.string_name in used_names", "kwarg_names", "star_count & 1",
+       "p.get_kind() == Parameter.VAR_KEYWORD", "new_star_count == 3",
+       "len(args_for_this_func) > len(longest_param_names)", "p.get_kind() == Parameter.POSITIONAL_OR_KEYWORD",
+       "star_count & 2", "kind == Parameter.KEYWORD_ONLY", "p.get_kind() == Parameter.VAR_KEYWORD",
+       "p.get_kind() == Parameter.VAR_KEYWORD", "star_count & 2", "kind == Parameter.POSITIONAL_ONLY",
+       "p.get_kind() == Parameter.VAR_POSITIONAL", "p.get_kind() == Parameter.KEYWORD_ONLY", "star_count & 1",
+       "star_count == 1", "p.get_kind() == Parameter.KEYWORD_ONLY", "star_count == 2"] := by
+  refine ⟨by decide, by decide, by decide, rfl⟩
+
 /-! ## parameter kinds -/
 
 /- FULL (false, see `get_kind_dunder_witness`):
